@@ -8,7 +8,7 @@ from .common import Out, import_mbi, HarnessError
 ID = 'C17'
 RULE = ('Hypothesis draws a domain (2-5 attrs, sizes 1-3), 1-6 distinct cliques (trees, loops, dense, size-3 cliques '
         'whose pairwise intersections intersect again; attributes listed in any order), finite potentials of scale <=3 on '
-        'any region, total in {1,10,1000,0.5}, damping in (0.05,0.9), and runs RegionGraph(convex=True) for up to 5000 '
+        'any region (one region optionally shifted by a constant up to +-800 / 1e4), total in {1,10,1000,0.5} given to the constructor or assigned afterwards, damping in (0.05,0.9), and runs RegionGraph(convex=True) for up to 5000 '
         'sweeps with convergence 1e-9*total. Precondition "run to convergence": primal_feasibility <= 1e-9*total, otherwise '
         'the case is inconclusive. Oracle: an independently built region closure and the optimum of max sum <theta,b> + '
         'sum H(b) under local consistency, solved through its smooth dual (L-BFGS + BFGS, dual gradient < 1e-8). '
@@ -41,7 +41,11 @@ def cases(draw, tier='quick'):
             out.append(c)
     return {'domain': dom, 'cliques': out, 'seed': draw(st.integers(0, 2**31 - 1)),
             'scale': draw(st.sampled_from([0.0, 0.5, 1.0, 3.0])), 'inner': draw(st.booleans()),
-            'total': draw(st.sampled_from([1.0, 10, 1000.0, 0.5])), 'damping': draw(st.floats(0.05, 0.9))}
+            'total': draw(st.sampled_from([1.0, 10, 1000.0, 0.5])), 'damping': draw(st.floats(0.05, 0.9)),
+            # LocalInference assigns .total on an oracle object it was handed; a constant added to one region's potential
+            # (the level mirror descent leaves behind) does not change the variational problem
+            'total_set': draw(st.sampled_from(['ctor', 'ctor', 'assigned'])),
+            'offset': draw(st.sampled_from([0.0, 0.0, 30.0, -30.0, 800.0, -800.0, 1e4])), 'offset_at': draw(st.integers(0, 50))}
 
 
 def strategy(tier):
@@ -56,16 +60,23 @@ def run_case(case):
     domain = mbi.Domain(attrs, shape)
     total = float(case['total'])
     cliques = [tuple(c) for c in case['cliques']]
-    rg = mbi.RegionGraph(domain, cliques, case['total'], convex=True, iters=5000, convergence=1e-9 * total, damping=case["damping"])
+    if case.get('total_set') == 'assigned':
+        rg = mbi.RegionGraph(domain, cliques, convex=True, iters=5000, convergence=1e-9 * total, damping=case["damping"])
+        rg.total = case['total']
+        out.classes.append('total_assigned_after_construction')
+    else:
+        rg = mbi.RegionGraph(domain, cliques, case['total'], convex=True, iters=5000, convergence=1e-9 * total, damping=case["damping"])
     rng = np.random.Generator(np.random.PCG64(case['seed']))
     pot, theta = {}, {}
+    off_r = rg.cliques[case.get('offset_at', 0) % len(rg.cliques)] if case.get('offset') else None
+    if off_r is not None: out.classes.append('offset:%g' % case['offset'])
     for r in rg.cliques:
         shp = [sizes[a] for a in r]
         if case['inner'] or r in cliques:
             v = rng.standard_normal(size=shp) * case['scale']
         else:
             v = np.zeros(shp)
-        pot[r] = mbi.Factor(domain.project(r), v.copy())
+        pot[r] = mbi.Factor(domain.project(r), v.copy() + (case['offset'] if r == off_r else 0.0))
         theta[frozenset(r)] = (list(r), v)
     mu = rg.belief_propagation(mbi.CliqueVector(pot))
     closure = oracles.region_closure(cliques)
